@@ -34,6 +34,13 @@ def reduceFuel : Nat → List Int → List Int
 /-- the reduced form by naive rewriting (each step shortens the word) -/
 def reduceSpec (w : List Int) : List Int := reduceFuel w.length w
 
+/-- the `k`-th letter of a word (counting from 0); a word of length n has no `k`-th
+    letter for k ≥ n -/
+def letterAt : List Int → Nat → Option Int
+  | [], _ => none
+  | x :: _, 0 => some x
+  | _ :: r, k + 1 => letterAt r k
+
 def inv (w : List Int) : List Int := w.reverse.map (fun x => -x)
 
 def rot (w : List Int) (k : Nat) : List Int := w.drop k ++ w.take k
